@@ -601,12 +601,23 @@ func errnoName(e syscall.Errno) string {
 }
 
 // ErrnosFor lists the errno values injected for an event kind (first = the default one).
+// ErrnoAt picks one errno of the kind's list by an index (the event's sequence number): where only
+// one errno per event is tried, the whole list still gets used across the events and configurations
+// (a fallback that is taken for EACCES only must not hide behind "the first errno is ENOSPC").
+func ErrnoAt(op string, i int) syscall.Errno {
+	l := ErrnosFor(op)
+	if i < 0 {
+		i = -i
+	}
+	return l[i%len(l)]
+}
+
 func ErrnosFor(op string) []syscall.Errno {
 	switch op {
 	case "open", "opendir":
 		return []syscall.Errno{syscall.EACCES, syscall.EMFILE, syscall.EIO}
 	case "openExcl", "create", "openW", "openTrunc":
-		return []syscall.Errno{syscall.ENOSPC, syscall.EACCES, syscall.EROFS}
+		return []syscall.Errno{syscall.ENOSPC, syscall.EACCES, syscall.EROFS, syscall.EPERM, syscall.ENAMETOOLONG}
 	case "write", "pwrite":
 		return []syscall.Errno{syscall.EIO, syscall.ENOSPC}
 	case "read", "pread":
